@@ -896,23 +896,36 @@ func ruleOpt(c *Ctx) {
 	// key -> Key(tonic semitone, !Minor, Flat+Sharp, Flat>0) from NewScale(v)
 	c.site(1)
 	if kc := cellClosure["key"]; kc != nil {
-		ci := wcall(kc, "Key")
+		// the closure may delegate to an extracted helper (writeKeySignature(w, v)): look at its region
+		tr := &tracer{c: c, stop: func(f *ssa.Function) bool { return f.Object() != nil && f.Object().Exported() }}
+		var krc, nsrc *rcall
+		region := c.regionCalls(kc, nil)
+		for i := range region {
+			if invokeOf("midix.Writer", "Key")(region[i].call) && krc == nil {
+				krc = &region[i]
+			}
+			if n := calleeName(region[i].call.Common()); (n == "op.NewScale" || n == "op.MustNewScale") && nsrc == nil {
+				nsrc = &region[i]
+			}
+		}
 		problem := ""
-		if ci == nil {
+		if krc == nil {
 			problem = "Writer.Key is not called"
 		} else {
+			ci := krc.call
+			kf := krc.fn
 			a := ci.Common().Args
-			ac := &affCtx{c: c, fn: kc, alias: map[ssa.Value]string{}}
+			ac := &affCtx{c: c, fn: kf, alias: map[ssa.Value]string{}}
 			d0 := ac.describe(stripConv(a[0]))
 			if !strings.Contains(d0, "op.ScaleNote.Semitone(") || !strings.Contains(d0, "Tonic") {
 				problem = "the key byte is not the semitone of the scale's tonic (" + d0 + ")"
 			}
-			if u, ok := a[1].(*ssa.UnOp); !ok || u.Op != token.NOT {
+			if u, ok := stripThroughLocal(a[1]).(*ssa.UnOp); !ok || u.Op != token.NOT {
 				problem = "isMajor is not !Minor"
 			} else if n, _, ok := loadedField(u.X); !ok || n != "Minor" {
 				problem = "isMajor is not derived from the key's Minor flag"
 			}
-			af := c.affine(kc, a[2])
+			af := c.affine(kf, a[2])
 			okNum := af.bad == "" && af.k == 0 && len(af.nonzero()) == 2
 			for _, t := range af.nonzero() {
 				if !(strings.HasSuffix(t, ".Flat") || strings.HasSuffix(t, ".Sharp")) || af.terms[t] != 1 {
@@ -922,7 +935,7 @@ func ruleOpt(c *Ctx) {
 			if !okNum {
 				problem = "the accidental count is not scale.Flat + scale.Sharp (" + af.String() + ")"
 			}
-			if b, ok := a[3].(*ssa.BinOp); !ok || b.Op != token.GTR {
+			if b, ok := stripThroughLocal(a[3]).(*ssa.BinOp); !ok || b.Op != token.GTR {
 				problem = "isFlat is not scale.Flat > 0"
 			} else if n, _, ok := loadedField(b.X); !ok || n != "Flat" {
 				problem = "isFlat is not derived from the scale's flat count (sharp keys would be written as flat keys or vice versa)"
@@ -930,11 +943,9 @@ func ruleOpt(c *Ctx) {
 				problem = "isFlat is not scale.Flat > 0"
 			}
 			// the scale is NewScale(v) of the cell's value
-			ns := firstCall(kc, func(ci ssa.CallInstruction) bool {
-				n := calleeName(ci.Common())
-				return n == "op.NewScale" || n == "op.MustNewScale"
-			})
-			if ns == nil || ns.Common().Args[0] != ssa.Value(kc.Params[0]) {
+			if nsrc == nil {
+				problem = "the scale is not built from the key in the cell"
+			} else if ka := tr.trace(lval{nsrc.call.Common().Args[0], nsrc.fn, nsrc.chain}); len(ka.chain) != 0 || ka.v != ssa.Value(kc.Params[0]) {
 				problem = "the scale is not built from the key in the cell"
 			}
 		}
@@ -984,7 +995,8 @@ func ruleOpt(c *Ctx) {
 		c.site(1)
 		ac := &affCtx{c: c, fn: dv, alias: map[ssa.Value]string{}}
 		d := ac.describe(returnsOf(dv)[0].Results[0])
-		c.check(d == "op.dynamicSignVelocityMap[p0]", fname(dv), c.pos(dv.Pos()), fname(dv), "velocity = table[d]", "DynamicSign.Velocity is no longer the table lookup checked by TAB-DYNAMICS: "+d)
+		_, _, how := c.velocityBySign()
+		c.check(d == "op.dynamicSignVelocityMap[p0]" || strings.HasPrefix(how, "folded"), fname(dv), c.pos(dv.Pos()), fname(dv), "velocity = the values checked by TAB-DYNAMICS ("+how+")", "DynamicSign.Velocity is neither the table lookup checked by TAB-DYNAMICS nor foldable to constants: "+d)
 	}
 	// newMidiArgs wires each cell to its default
 	if nm := c.fn("play", "newMidiArgs"); nm != nil {
